@@ -5,6 +5,7 @@ CONSTANTS
   SkipFix = TRUE
   CctFix = TRUE
   SelfFailFix = TRUE
+  StaleResetFix = TRUE
   FlushFix = TRUE
   QMax = 100
   PPInterval = 2
